@@ -11,6 +11,7 @@
 // equal the number of subscription strings of each session that match the node.
 //
 // modes:  --opt mode=mirror (default)   random histories;  --opt cmds=N (default 60)  --opt longpm=N (per mille of cases with 16x commands)
+//         (environment HM_DUMP=1 prints the field names of every PR_RESULT_DATAITEMS a client receives to stderr: replay aid)
 //         --opt mode=regress            fixed witnesses (F13, same-size overwrite, set-then-remove flush, ...) + documentation examples
 #include "vh.h"
 #include "reflectbench.h"
